@@ -1,14 +1,21 @@
 import Cactus.Lemmas.Trace
 import Cactus.Props.C16
+import Cactus.Lemmas.Depth.Main
+import Cactus.Lemmas.Depth.Example
 /-!
 # C15 — collection is iterative and linear
 
-The trace is a worklist loop (`traceLoop`), not a recursion; its cost is bounded by the number of
-objects visited plus the Forward entries in their tables, each table is scanned once, and the
-fuel computed from the heap always suffices.  During a group teardown the members' handles to
-each other are inert (`C16_drop_dead_noop`), so destroying the values pushes no further
-continuation frames.  Machine stack bytes on the real implementation are observed by the
-`bigring` harness mode (small fixed-size thread stack), not proved.
+The trace is a worklist loop (`traceLoop`), not a recursion.  What is proved here:
+* the trace: `C15_visit_once`, `C15_pops_linear` (pops ≤ 1 + Forward entries of the visited objects),
+  `C15_trace_terminates` (the fuel computed from the heap always suffices),
+  `C15_member_handles_inert`;
+* nesting depth (`Cactus.Lemmas.Depth.*`): `C15_collection_depth_bounded` (a whole collection runs
+  at constant depth whatever the size of the group), `C15_step_depth`,
+  `C15_history_depth_profile`, `C15_single_collection_depth`;
+* examples: rings of 4 and 16 vs a chain of 8 (depth profiles), the hypotheses of the depth theorem
+  met on the ring of 4, and a ring with chords where the trace bounds give concrete numbers.
+Not proved: machine stack bytes on the real implementation are observed by the `bigring` harness
+mode (small fixed-size thread stack); the depth theorems are the model-level counterpart.
 -/
 namespace Cactus
 
@@ -32,5 +39,181 @@ the teardown of a group of any size never nests through its own members -/
 theorem C15_member_handles_inert (s : State) (o : Nat) (ob : Obj)
     (hc : s.cell o = some ob) (hd : ob.strong.isDead = true) : (s.rcDrop o).stack = s.stack := by
   rw [C16_drop_dead_noop s o ob hc hd]
+
+
+/-! ## A collection runs at constant nesting depth (`Cactus.Lemmas.Depth.*`)
+
+In the real code the machine stack holds one activation record per library call that waits for a
+nested call to return.  In the model these are the continuation frames on the control stack:
+`finishSingle` (rest of `drop_unreachable*`), `phase3` (rest of `drop_cycle`) — counted by
+`State.libDepth` — and `script` (a running destructor body), counted in addition by `State.depth`;
+the other frames are data (handles and values some loop will get to).
+
+* `C15_collection_depth_bounded`: from a stable point (`Good`: reachable, no error, every stored
+  handle recorded, quiet values) whose next step starts a collection of the group of `o`
+  (`Collects`), the whole teardown — phases 1–3 and every member's destructor — runs back to the
+  rest of the stack with `libDepth ≤ start + 1` and `depth ≤ start + 2` in **every** intermediate
+  state, **whatever the number of members** (the `+1` is the `phase3` frame, the other `+1` the one
+  destructor body currently running; `DepthExample.ring4_plus_one_fails` shows `+2` is attained).
+* `C15_step_depth`: no hypothesis at all — one machine step changes either measure by at most one;
+  per-frame facts in `Cactus.Lemmas.Depth.Step`.
+* `C15_history_depth_profile`: for every operation of every `fullQuiet` history that ends without
+  error, every intermediate state is within `+2` / `+1` of a stable point of the same operation:
+  collections never add to the nesting, only the recursive teardown of acyclic chains does (as with
+  plain reference counting).
+* Contrast, machine-checked: rings of 4, 8, 16 objects are reclaimed at `libDepth` 1
+  (`C15_example_ring16`), a chain of 8 objects dropped from its head reaches `libDepth` 8
+  (`C15_example_chain8`), with or without recorded adoptions. -/
+
+/-- from a stable point `s` (`Good`) whose top frame `rcDrop o` starts a collection (`Collects`),
+the machine is back at a stable point `t` after `k` further steps, the stack of `t` is the rest of
+the stack of `s`, and every state passed through — for a group of any size — has at most
+`s.depth + 2` activation records, of which at most `s.libDepth + 1` are library continuations
+(`collection_depth_bounded` in `Cactus.Lemmas.Depth.Collect`; `Run k a b`: `k` error-free steps
+lead from `a` to `b`, `runSteps j a`: the state after `j` steps) -/
+theorem C15_collection_depth_bounded {s : State} (hg : Good s) {o : Nat} {rest : List Frame}
+    {ob : Obj} {n : Nat} (hc : Collects s o rest ob n) :
+    ∃ k t, Run k (step s) t ∧ Good t ∧ t.stack = rest
+      ∧ t.depth = s.depth ∧ t.libDepth = s.libDepth
+      ∧ ∀ j, j ≤ k → (runSteps j (step s)).depth ≤ s.depth + 2
+          ∧ (runSteps j (step s)).libDepth ≤ s.libDepth + 1 :=
+  collection_depth_bounded hg hc
+
+/-- one machine step pushes at most one activation record (any state whatsoever) -/
+theorem C15_step_depth (s : State) :
+    (step s).depth ≤ s.depth + 1 ∧ (step s).libDepth ≤ s.libDepth + 1 :=
+  step_depth_le s
+
+/-- **C15 along whole histories.**  In a history of `fullQuiet` operations that ends without error,
+take any operation `oh` (after the prefix `pre`) and let `s0 = applyOp {run pre with hint} oh.1` be
+the state in which its `drain` starts.  Then `s0` is a stable point, the `drain` is `runSteps` with
+the fuel, and every state it passes through (index `j`) is within `+2` activation records / `+1`
+library continuation of a stable point passed earlier in the same operation (index `i ≤ j`), at
+which — unless it is that stable point itself — a collection is in progress. -/
+theorem C15_history_depth_profile (ops : List (Op × List Nat)) (hfq : ∀ oh ∈ ops, oh.1.fullQuiet)
+    (he : (run ops).err = none) (pre : List (Op × List Nat)) (oh : Op × List Nat)
+    (post : List (Op × List Nat)) (hops : ops = pre ++ oh :: post) :
+    Good (run pre) ∧ (run pre).stack = []
+    ∧ Good (applyOp { run pre with hint := oh.2 } oh.1)
+    ∧ execOp defaultFuel (run pre) oh.1 oh.2
+        = runSteps defaultFuel (applyOp { run pre with hint := oh.2 } oh.1)
+    ∧ ∀ j, ∃ i, i ≤ j ∧ Good (runSteps i (applyOp { run pre with hint := oh.2 } oh.1))
+        ∧ (runSteps j (applyOp { run pre with hint := oh.2 } oh.1)).depth
+            ≤ (runSteps i (applyOp { run pre with hint := oh.2 } oh.1)).depth + 2
+        ∧ (runSteps j (applyOp { run pre with hint := oh.2 } oh.1)).libDepth
+            ≤ (runSteps i (applyOp { run pre with hint := oh.2 } oh.1)).libDepth + 1
+        ∧ (i = j ∨ ∃ o rest ob n,
+            Collects (runSteps i (applyOp { run pre with hint := oh.2 } oh.1)) o rest ob n) :=
+  history_depth_profile ops hfq he pre oh post hops
+
+/-- one operation of a history: a `fullQuiet` operation applied at a quiescent stable point `u`
+that leaves exactly the `rcDrop` starting a collection on the stack (dropping the last program
+handle of an orphaned group) runs at `depth ≤ 2`, `libDepth ≤ 1` throughout, and `execOp` is
+`k + 1` machine steps ending at a quiescent stable point -/
+theorem C15_single_collection_depth {u : State} (hg : Good u) (hq : u.stack = []) (op : Op)
+    (hop : op.fullQuiet) (hint : List Nat) {o : Nat} {ob : Obj} {n : Nat}
+    (he : (applyOp { u with hint := hint } op).err = none)
+    (hc : Collects (applyOp { u with hint := hint } op) o [] ob n) :
+    (∀ j, (runSteps j (applyOp { u with hint := hint } op)).depth ≤ 2
+        ∧ (runSteps j (applyOp { u with hint := hint } op)).libDepth ≤ 1)
+    ∧ ∃ k, ∀ fuel, k + 1 ≤ fuel →
+        execOp fuel u op hint = runSteps (k + 1) (applyOp { u with hint := hint } op)
+        ∧ Good (execOp fuel u op hint) ∧ (execOp fuel u op hint).stack = [] :=
+  execOp_single_collection_depth hg hq op hop hint he hc
+
+
+/-! ## Examples (`Cactus.Lemmas.Depth.Example`)
+
+`DepthExample.ringStart n`: `n` objects linked into one ring with `link`, the state right after
+`drop` of the last program handle has pushed its `rcDrop 0` frame;
+`DepthExample.chainStart mk n`: the same for a chain `0 → 1 → … → n-1` built with `mk = store` or
+`link`.  `depthTrace k s` / `libDepthTrace k s` list `depth` / `libDepth` of `s, step s, …, step^k s`. -/
+
+/-- the ring of 16 is reclaimed in 82 steps at `depth ≤ 2`, `libDepth ≤ 1` -/
+theorem C15_example_ring16 :
+    (runSteps 82 (DepthExample.ringStart 16)).stack = []
+    ∧ (runSteps 81 (DepthExample.ringStart 16)).stack ≠ []
+    ∧ (runSteps 82 (DepthExample.ringStart 16)).destroyedVids.length = 16
+    ∧ DepthExample.maxOf (DepthExample.depthTrace 83 (DepthExample.ringStart 16)) = 2
+    ∧ DepthExample.maxOf (DepthExample.libDepthTrace 83 (DepthExample.ringStart 16)) = 1 :=
+  DepthExample.ring16_max
+
+/-- a plain chain of 8 dropped from its head nests: `libDepth` 8, `depth` 9 -/
+theorem C15_example_chain8 :
+    (runSteps 47 (DepthExample.chainStart .store 8)).stack = []
+    ∧ (runSteps 47 (DepthExample.chainStart .store 8)).err = none
+    ∧ DepthExample.maxOf (DepthExample.depthTrace 47 (DepthExample.chainStart .store 8)) = 9
+    ∧ DepthExample.maxOf (DepthExample.libDepthTrace 47 (DepthExample.chainStart .store 8)) = 8 :=
+  DepthExample.chain8_store_max
+
+/-- the hypotheses of `C15_collection_depth_bounded` are met by the ring of 4: its start is a
+stable point and its `rcDrop 0` starts a collection -/
+theorem C15_example_hypotheses_met :
+    ∃ ob n, Collects (DepthExample.ringStart 4) 0 [] ob n :=
+  DepthExample.ring4_collects
+
+example : Good (DepthExample.ringStart 4) := DepthExample.ring4_good
+
+/-- … and what the theorem gives there, next to the evaluated depth profile of the 22 steps -/
+example : ∃ k t, Run k (step (DepthExample.ringStart 4)) t ∧ t.stack = []
+    ∧ ∀ j, j ≤ k → (runSteps j (step (DepthExample.ringStart 4))).depth ≤ 2
+        ∧ (runSteps j (step (DepthExample.ringStart 4))).libDepth ≤ 1 := by
+  obtain ⟨ob, n, hc⟩ := C15_example_hypotheses_met
+  obtain ⟨k, t, hr, _, hst, _, _, hall⟩ := C15_collection_depth_bounded DepthExample.ring4_good hc
+  have h0 : (DepthExample.ringStart 4).depth = 0 ∧ (DepthExample.ringStart 4).libDepth = 0 := by
+    decide +kernel
+  exact ⟨k, t, hr, hst, fun j hj => by have := hall j hj; omega⟩
+
+example : DepthExample.depthTrace 23 (DepthExample.ringStart 4)
+    = [0, 1, 2, 1, 1, 1, 1, 2, 1, 1, 1, 1, 2, 1, 1, 1, 1, 2, 1, 1, 1, 1, 0, 0] :=
+  DepthExample.ring4_depthTrace
+
+/-! ## Trace example: a ring with chords
+
+Four objects in a ring `0 → 1 → 2 → 3 → 0` with chords `0 → 2`, `2 → 0`, `1 → 3` and a parallel
+adoption `0 → 1` (count 2), all built with `link`; the program keeps one handle, to object 0.  The
+heap then has 7 Forward entries (the parallel adoption is one entry with count 2). -/
+
+def chordRing : List (Op × List Nat) :=
+  [(.act .new, []), (.act .new, []), (.act .new, []), (.act .new, []),
+   (.act (.clone 1), []), (.act (.link 4 0), []),     -- 0 → 1
+   (.act (.clone 2), []), (.act (.link 4 1), []),     -- 1 → 2
+   (.act (.clone 3), []), (.act (.link 4 2), []),     -- 2 → 3
+   (.act (.clone 0), []), (.act (.link 4 3), []),     -- 3 → 0 (ring closed)
+   (.act (.clone 2), []), (.act (.link 4 0), []),     -- chord 0 → 2
+   (.act (.clone 0), []), (.act (.link 4 2), []),     -- chord 2 → 0
+   (.act (.clone 3), []), (.act (.link 4 1), []),     -- chord 1 → 3
+   (.act (.clone 1), []), (.act (.link 4 0), []),     -- second adoption 0 → 1
+   (.act (.drop 1), []), (.act (.drop 1), []), (.act (.drop 1), [])]
+
+/-- the state, the hypotheses of `C15_visit_once` (`bad = none`, `outOfFuel = false`), and the trace
+from object 0 by evaluation: 4 objects visited, 8 worklist pops, 7 Forward entries scanned -/
+example : let s := run chordRing
+    s.err = none ∧ s.roots = [0] ∧ s.heap.map (·.strong) = [.cnt 3, .cnt 2, .cnt 2, .cnt 2]
+    ∧ (cycleRefs s 0).bad = none ∧ (cycleRefs s 0).outOfFuel = false
+    ∧ (cycleRefs s 0).visited = [1, 3, 2, 0]
+    ∧ (cycleRefs s 0).popped = 8
+    ∧ sumOver (cycleRefs s 0).visited (fun n => fwdLen (s.tbl n)) = 7
+    ∧ (cycleRefs s 0).cmap = [(1, 2), (3, 2), (2, 2), (0, 2)] := by
+  decide +kernel
+
+/-- `C15_visit_once` applies: no object is visited twice although every object is named by two
+Forward entries -/
+example : (cycleRefs (run chordRing) 0).visited.Nodup :=
+  C15_visit_once (run chordRing) 0 (by decide +kernel) (by decide +kernel)
+
+/-- `C15_pops_linear` gives `popped ≤ 1 + 7`, and the bound is attained here -/
+example : (cycleRefs (run chordRing) 0).popped ≤ 8 := by
+  have h := C15_pops_linear (run chordRing) 0
+  have h7 : sumOver (cycleRefs (run chordRing) 0).visited (fun n => fwdLen ((run chordRing).tbl n)) = 7 := by
+    decide +kernel
+  omega
+
+/-- the same trace is what the final `drop` runs (event `traced root visited popped`), after which
+the whole group is collected -/
+example : let s := run (chordRing ++ [(.act (.drop 0), [])])
+    s.err = none ∧ Ev.traced 0 4 8 ∈ s.log ∧ s.destroyedVids = [1, 3, 2, 0]
+    ∧ s.freedIds = [1, 3, 2, 0] := by
+  decide +kernel
 
 end Cactus
